@@ -93,7 +93,9 @@ def _case(draw, near=False):
                                        "delta": 1e-2})
     if big_krum:
         # rows sharing a large common component (distances are small differences of large numbers)
-        J = rng.standard_normal((m, n)) + 10.0 ** draw(st.sampled_from([2, 3, 4])) * np.sign(rng.standard_normal(n))
+        # heterogeneous spreads keep the Krum scores well separated (no near-ties), the common offset is what matters
+        J = rng.standard_normal((m, n)) * rng.uniform(0.3, 3.0, size=(m, 1)) + 10.0 ** draw(st.sampled_from([3, 4])) * np.sign(rng.standard_normal(n))
+        dtype = "float32" if draw(st.sampled_from([True, True, False])) else dtype
         fam = "common-offset"
     J = J * 10.0 ** draw(st.integers(-3, 3))
     if name in ("UPGrad", "DualProj", "CAGrad") and (near or draw(st.sampled_from([True, False, False, False]))):
